@@ -7,6 +7,16 @@ LEVEL_NOTE = ("Trusted: Coq 8.16.1 kernel (vm_compute inside proofs, no native_c
  "(parsing, printing, driving the API); the hand-written model is tied to the code by a differential correspondence run on every check "
  "(sampled unless evidence says exhaustive). Modelled not verified: external crates, Rust std, OS.")
 CHECKS = {
+ "C01": dict(text="Coq theorems over the transcribed head parser and read loop (src/head.rs, head phase of read_http_request): for every url parser, buffer capacity, buffer state, stream, read schedule and EOF/error ending, with fuel >= cap+2 the outcome is a request or one of the documented errors -- never Panic, never OutOfFuel; the outcome equals a schedule-free function of the bytes (split independence); exactly head_len+4 bytes are consumed; pipelined heads after buf.shift() fit; error -> status table; pre-fix D1 panic refuted. Tied to the code by driving Head::try_read / read_http_head / read_http_request with scripted in-memory readers.",
+   technique="Rocq/Coq proof (fuelled loop = schedule-free spec, induction on fuel; no-panic by case analysis) + extracted-model differential correspondence", ref="DESIGN.md section 6 C01"),
+ "C02": dict(text="Coq theorems: render/parse round trip for all token methods, canonical targets (url crate as a Section variable with the url_canonical hypothesis, exercised on every canonical target met) and field lists; accepted heads are in the grammar (never repaired beyond the enumerated line-end leniencies); every rejection is justified by a violated rule; recognisers equal the declarative reading of the two regex patterns (literal text pinned against the source each run); pre-fix D2 refuted. Tied to the code by Head::try_read on generated and mutated heads.",
+   technique="Rocq/Coq proof (parser/renderer round trip and grammar soundness by induction over field lists) + extracted-model differential correspondence with the url crate's answers logged per case", ref="DESIGN.md section 6 C02"),
+ "C04": dict(text="Coq theorems about the model of handle_http_conn_once / handle_http_conn (parametric in request reader, response writer and handler): the handler runs once per request or exactly twice after 'fetch the body'; what is written is the handler's answer, drop writes nothing, 4xx/5xx (incl. the 500 a panic becomes) closes; after any closing event nothing more is read or run; the loop terminates; small bodies reach the handler byte-exact; pre-fix D5 refuted. Tied to the code by driving the real handle_http_conn over loop-back and a full HttpServerBuilder server with a scripted handler; an independent oracle (handler mirror + strict response parser) is evaluated on the implementation's transcript.",
+   technique="Rocq/Coq proof (case analysis of one iteration, induction over loop fuel) + extracted-model differential correspondence on real connections", ref="DESIGN.md section 6 C04"),
+ "C09": dict(text="Coq theorems for all L, S, M as unbounded naturals with explicit 2^64 side conditions: declared L<=S is handed over in memory without asking, byte-exact; larger/undeclared bodies are asked first; accepted iff L<=M (known: refused before anything is read; unknown: exactly at the boundary; M=2^64-1 does not overflow -- repair of D7, pre-fix refuted); single run on 413 (repair of D5); bytes in memory <= S, bytes handed over on disk <= M. Tied to the code by the quantifier's grid through the real handle_http_conn, debug and release builds.",
+   technique="Rocq/Coq proof (case analysis + lia over N with 2^64 side conditions) + grid correspondence on real connections in debug and release builds", ref="DESIGN.md section 6 C09"),
+ "C10": dict(text="PARTIAL. Coq theorems about the temp-file effect log transcribed into the server model: on every path of one request every created file is dropped exactly once (in the reader on failure, with the request after hand-over), and after the connection loop ends no file is alive. That Rust really runs those drops is observed, not proved: the correspondence check lists the cache directory after every scenario (uploads cut at every offset class x handler outcomes x cache dir kinds, direct and through a full server).",
+   technique="Rocq/Coq proof over a hand-transcribed effect log (balanced create/drop on all paths, induction over the loop) + directory-listing correspondence; partial", ref="DESIGN.md section 6 C10"),
  "C05": dict(text="Coq theorems, for EVERY request reader and EVERY response writer (Section variables) and all states / all operation sequences: misuse yields the documented error and changes nothing; the wire grows exactly by the prescribed bytes; nothing after shutdown (induction over sequences); finals sent <= requests started (trace invariant); interim keeps owed; 5xx closes; failed-write accounting; auto 100-continue; a failed body read never re-opens head reading (repair of D16, pre-fix refuted); oracle soundness. Tied to the code by driving a real HttpConn over loop-back with the concrete instantiation (head + request + response models), comparing every call's result, both states, is_ready and the exact wire bytes.",
    technique="Rocq/Coq proof (state-machine contract, parametric in reader/writer; invariants by induction over operation sequences) + extracted-model differential correspondence on a real HttpConn", ref="DESIGN.md section 6 C05"),
  "C14": dict(text="Coq theorems: every HeaderList operation of the model (transcribed from src/headers.rs, incl. the index loop of remove_all over Vec::remove) equals the ordered case-insensitive multimap specification for all states and all operation sequences (induction); ASCII invariant for all reachable collections; tied to the code by running servlin::HeaderList and every AsciiString constructor against the extracted model and the extracted oracle.",
